@@ -36,7 +36,9 @@ class W:
         self.st, self.sl, self.ix = ghosts(c, "old")
 
     def requires(self):
-        return [(f"sequence-is-a-valid-schedule:{l}", f) for l, f in schedule_is_valid(self.N, self.E, self.seq, self.st, self.sl, self.ix)]
+        # (every clause is a proved postcondition of get_execution_sequence; "exactly-once-and-nothing-else" is left out: it follows from
+        #  the located + distinct-positions clauses and, as a hypothesis, it feeds a matching loop with "every-discipline-is-scheduled")
+        return [(f"sequence-is-a-valid-schedule:{l}", f) for l, f in schedule_is_valid(self.N, self.E, self.seq, self.st, self.sl, self.ix) if l != "exactly-once-and-nothing-else"]
 
     def group(self, d):
         return seq_at(self.seq, self.st[d], self.sl[d])
@@ -97,6 +99,21 @@ def group_spec(w, R, a, proc):
     ]
 
 
+def group_bridges(w, R, a):
+    """Consequences of group_spec + the schedule invariant, in the form the callers use (discipline level)."""
+    j, p = z3.Ints("j!gb p!gb")
+    u = D("u!gb")
+    g = R.elems[j]
+    x = le(g, p)
+    gu = w.group(u)
+    return [
+        ("members-of-listed-groups", FA([j, p], z3.Implies(z3.And(0 <= j, j < R.n, 0 <= p, p < ln(g)),
+                                                           z3.And(w.N.member[x], w.st[x] == w.st[le(g, 0)], w.sl[x] == w.sl[le(g, 0)], w.ix[x] == p, w.strong(x, a), ln(w.group(x)) == ln(g))), x)),
+        ("group-of-each-strongly-coupled-discipline", FA([u], z3.Implies(z3.And(w.N.member[u], w.strong(u, a)),
+                                                                        z3.Exists([j], z3.And(0 <= j, j < R.n, ln(g) == ln(gu), z3.ForAll([p], z3.Implies(z3.And(0 <= p, p < ln(gu)), le(g, p) == le(gu, p)))))), w.st[u])),
+    ]
+
+
 class _StronglyCoupled(Contract):
     prop = ("C08",)
     params = {"add_self_coupled": TBool, "by_group": TBool}
@@ -123,7 +140,10 @@ class _StronglyCoupled(Contract):
         return W(c).requires() + [("shape", c.old.by_group == z3.BoolVal(self.by_group))]
 
     def ensures(self, c):
-        return self.spec(W(c), c.result, c.old.add_self_coupled, lambda d: z3.BoolVal(True))
+        out = self.spec(W(c), c.result, c.old.add_self_coupled, lambda d: z3.BoolVal(True))
+        if self.by_group:
+            out = out + group_bridges(W(c), c.result, c.old.add_self_coupled)
+        return out
 
 
 @register
@@ -141,3 +161,69 @@ class StronglyCoupledFlat(_StronglyCoupled):
     targets = (CS + ".get_strongly_coupled_disciplines",)
     variant = "flat"
     by_group = False
+
+
+# ============================================================================ _compute_strong_couplings
+_GH = z3.ArraySort(PG.DiscS, z3.IntSort())
+strong_coupling_p = z3.Function("strong_coupling", SEQ.sort(), _GH, _GH, z3.ArraySort(PG.DiscS, z3.BoolSort()), StrS, z3.BoolSort())
+
+
+def strong_coupling(w, x):
+    """x is an input and an output of one and the same group needing an MDA (a predicate of the sequence, the ghost locations,
+    the node set and the name; *defined* by strong_coupling_definition)."""
+    return strong_coupling_p(SEQ.dt.mk(w.seq.n, w.seq.elems), w.st, w.sl, w.N.member, x)
+
+
+def strong_coupling_definition(w):
+    u, v = D("u!sg"), D("v!sg")
+    x = S("x!sgd")
+    body = z3.Exists([u, v], z3.And(w.N.member[u], w.N.member[v], w.same_group(u, v), w.strong(u), in_names(u)[x], out_names(v)[x]),
+                     patterns=[z3.MultiPattern(in_names(u)[x], out_names(v)[x])])
+    return [("definition-of-strong-coupling", z3.ForAll([x], strong_coupling(w, x) == body, patterns=[strong_coupling(w, x)]))]
+
+
+def _grp(c, j):
+    """(length, elements) of the j-th item of the list being iterated (a list of groups)."""
+    o = c.st.heap[c.seq.elem(j).id]
+    return o.n, o.elems
+
+
+def _in_of_first_groups(c, x, k):
+    j, p, q = z3.Ints("j!sgi p!sgi q!sgi")
+    n, el = _grp(c, j)
+    return z3.Exists([j], z3.And(0 <= j, j < k, z3.Exists([p], z3.And(0 <= p, p < n, in_names(el[p])[x])), z3.Exists([q], z3.And(0 <= q, q < n, out_names(el[q])[x]))))
+
+
+@register
+class ComputeStrongCouplings(Contract):
+    """_strong_couplings = union, over the groups needing an MDA (size > 1, or a self-coupled discipline), of
+    inputs(group) & outputs(group) - per group: a variable going from one group to another one is not a strong coupling."""
+
+    targets = (CS + "._compute_strong_couplings",)
+    prop = ("C08",)
+    modifies = ("self",)
+    loops = {0: LoopSpec(anchor="self.get_strongly_coupled_disciplines(by_group=True)", inv=lambda c, k: _sc_inv(c, k), modifies=("strong_couplings",),
+                         local_types={"strong_couplings": NAMES})}
+
+    def axioms(self, c):
+        return strong_coupling_definition(W(c))
+
+    def requires(self, c):
+        return W(c).requires()
+
+    def ensures(self, c):
+        w = W(c)
+        r = c.new.self._strong_couplings
+        return list_is_set(r.n, r.elems, lambda x: strong_coupling(w, x), "scp") + _cs_kept(c.old.self, c.new.self, "_strong_couplings")
+
+
+def _sc_inv(c, k):
+    x = S("x!sci")
+    sc = c.locals["strong_couplings"]
+    j, p, q = z3.Ints("j!sc2 p!sc2 q!sc2")
+    n, el = _grp(c, j)
+    return [
+        ("only-strong-couplings", FA([x], z3.Implies(sc.member[x], strong_coupling(W(c), x)), sc.member[x])),
+        ("all-couplings-of-the-first-groups", FA([j, p, q, x], z3.Implies(z3.And(0 <= j, j < k, 0 <= p, p < n, 0 <= q, q < n, in_names(el[p])[x], out_names(el[q])[x]), sc.member[x]),
+                                                 z3.MultiPattern(in_names(el[p])[x], out_names(el[q])[x]))),
+    ]
